@@ -320,6 +320,44 @@ def nameFn (σ : State) (a : Nat) : String :=
   | some s => s
   | none => ""
 
+/-! unification on id-level terms (`Env.unify` without occurs check, bindings as an association
+    list, newest first; atoms are compared by ID, as Go's `==` on `Atom` does) -/
+
+abbrev ISubst := List (Nat × ITerm)
+
+/-- `Env.Resolve`: follow variable bindings -/
+def ISubst.walk : Nat → ISubst → ITerm → ITerm
+  | 0, _, t => t
+  | fuel + 1, s, .var v =>
+    match s.lookup v with
+    | some t => ISubst.walk fuel s t
+    | none => .var v
+  | _, _, t => t
+
+mutual
+  def ITerm.unify : Nat → ITerm → ITerm → ISubst → Option ISubst
+    | 0, _, _, _ => none
+    | fuel + 1, t, u, s =>
+      match ISubst.walk fuel s t, ISubst.walk fuel s u with
+      | .var v, .var w => if v = w then some s else some ((v, .var w) :: s)
+      | .var v, u' => some ((v, u') :: s)
+      | t', .var w => some ((w, t') :: s)
+      | .atom a, .atom b => if a = b then some s else none
+      | .int i, .int j => if i = j then some s else none
+      | .app g as, .app h bs => if g = h then IArgs.unify fuel as bs s else none
+      | _, _ => none
+  def IArgs.unify : Nat → IArgs → IArgs → ISubst → Option ISubst
+    | 0, _, _, _ => none
+    | _ + 1, .nil, .nil, s => some s
+    | fuel + 1, .cons t ts, .cons u us, s =>
+      match ITerm.unify fuel t u s with
+      | some s' => IArgs.unify fuel ts us s'
+      | none => none
+    | _ + 1, _, _, _ => none
+end
+
+def ISubst.ren (ρ μ : Nat → Nat) (s : ISubst) : ISubst := s.map fun p => (μ p.1, p.2.ren ρ μ)
+
 /-- an answer as the harness (and every other property's model) sees it: atoms by name,
     variables renamed by first occurrence -/
 def ITerm.answer (nm : Nat → String) (t : ITerm) : Term := (t.abs nm).canon
